@@ -77,7 +77,8 @@ the proposed entry of ExpireSessions -/
 theorem C17_wiring :
     Gen.Exprs.fact "getsession.conds" = "ok ;; i.lastProcessed.Id > id.Id" ∧
     Gen.Exprs.fact "expire.conds" = "id.Reply != 0 ;; time.Since(s.LastActivity) <= timeout" ∧
-    Gen.Exprs.fact "expire.timeout" = "time.Duration(i.Config.SessionExpiration)" ∧
+    Gen.Exprs.fact "expire.timeout" = "i.sessionExpiration()" ∧
+    Gen.Exprs.fact "expire.timeout.helper" = "time.Duration(i.Config.SessionExpiration)" ∧
     Gen.Exprs.fact "expire.msg.Type" = "robust.DeleteSession" ∧
     Gen.Exprs.fact "expire.msg.Session" = "id" := by decide
 
